@@ -553,6 +553,33 @@ def run_interp(ctx, drv, case):
 
 
 # ------------------------------------------------------------------ cache-key probes (model only vs. the implementation's key function)
+def check_key_pairs(ck, drv, case, pairs):
+    ctx = ck.ctx
+    stripes = [[F(c) for c in s] for s in case["stripes"]]
+    dim = case["dim"]
+    op, g = new_dimwise_op(case, True)
+    seen = {}
+    for I, J in pairs:
+        pi, di = [float(c[0]) for c in I], [(float(c[1]), float(c[2])) for c in I]
+        pj, dj = [float(c[0]) for c in J], [(float(c[1]), float(c[2])) for c in J]
+        key = str(op.get_domain_overlap_width(pi, di, pj, dj))
+        val = op.calculate_R_value_analytically(pi, di, pj, dj)
+        out = drv.ask("key %s %s" % (";".join(fv(c) for c in I), ";".join(fv(c) for c in J)))
+        kpart, rest = out.split(" value ")
+        kv, ev = [F(t) for t in rest.split(" entry ")]
+        flag, ws, ds = kpart.split("|")
+        w_i, d_i = op.get_domain_overlap_width(pi, di, pj, dj)
+        # the key is compared as a pair of multisets: the order inside the key is an internal choice
+        if not (vec_near(sorted(w_i), sorted(parse_vec(ws)), 1e-12) and vec_near(sorted(d_i), sorted(parse_vec(ds)), 1e-12)) or not c16.near_entry(val, ev):
+            ck.corr("overlap key / entry", dict(case, I=str(I), J=str(J)), (key, val), out)
+        if kv != ev:
+            ck.corr("model: keyValue(key) == rValue", dict(case, I=str(I), J=str(J)), str(kv), str(ev))
+        if key in seen and not c16.near_entry(val, seen[key]):
+            ck.viol("equal-keys-different-entries", {"dim": dim}, dict(case, I=str(I), J=str(J)), {"key": key, "values": [val, seen[key]]})
+        seen[key] = val
+        ctx.count("key_pairs")
+
+
 def run_keys(ctx, drv, n):
     """`get_domain_overlap_width` and `calculate_R_value_analytically` on pairs of hats of random tensor grids: key and
     value against the model, and the clause `equal keys -> equal entries` on the implementation"""
@@ -563,31 +590,21 @@ def run_keys(ctx, drv, n):
         stripes = [c16.gen_stripe(r, 9, 6) for _ in range(dim)]
         case = {"kind": "keys", "dim": dim, "stripes": [[frac_str(c) for c in s] for s in stripes], "lam": "0", "classes": None, "data": [["1/2"] * dim]}
         try:
-            op, g = new_dimwise_op(case, True)
             hats = hats_of(stripes)
-            seen = {}
             pairs = [(r.choice(hats), r.choice(hats)) for _ in range(25)] + [(h, h) for h in hats[:5]]
-            for I, J in pairs:
-                pi, di = [float(c[0]) for c in I], [(float(c[1]), float(c[2])) for c in I]
-                pj, dj = [float(c[0]) for c in J], [(float(c[1]), float(c[2])) for c in J]
-                key = str(op.get_domain_overlap_width(pi, di, pj, dj))
-                val = op.calculate_R_value_analytically(pi, di, pj, dj)
-                out = drv.ask("key %s %s" % (";".join(fv(c) for c in I), ";".join(fv(c) for c in J)))
-                kpart, rest = out.split(" value ")
-                kv, ev = [F(t) for t in rest.split(" entry ")]
-                flag, ws, ds = kpart.split("|")
-                w_i, d_i = op.get_domain_overlap_width(pi, di, pj, dj)
-                if not (vec_near(w_i, parse_vec(ws), 1e-12) and vec_near(d_i, parse_vec(ds), 1e-12)) or not near(val, ev, TOL, 1e-6):
-                    ck.corr("overlap key / entry", dict(case, I=str(I), J=str(J)), (key, val), out)
-                if kv != ev:
-                    ck.corr("model: keyValue(key) == rValue", dict(case, I=str(I), J=str(J)), str(kv), str(ev))
-                if key in seen and not near(val, seen[key], TOL, 1e-6):
-                    ck.viol("equal-keys-different-entries", {"dim": dim}, dict(case, I=str(I), J=str(J)), {"key": key, "values": [val, seen[key]]})
-                seen[key] = val
-                ctx.count("key_pairs")
+            check_key_pairs(ck, drv, case, pairs)
         except Exception:
             ck.ok = False
             ctx.violation("exception", {"kind": "keys"}, case, {"traceback": traceback.format_exc()[-1500:]})
+    return ck.ok
+
+
+def replay_keys(ctx, drv, case):
+    """all pairs of hats of the grid of the case (at most 3000)"""
+    ck = c16.Checker(ctx, drv)
+    hats = hats_of([[F(c) for c in s] for s in case["stripes"]])
+    pairs = list(itertools.product(hats, hats))[:3000]
+    check_key_pairs(ck, drv, case, pairs)
     return ck.ok
 
 
@@ -632,10 +649,7 @@ def replay(ctx, rp):
     case = {k: v for k, v in rp["case"].items() if k not in ("step", "point", "I", "J")}
     drv = ctx.driver("drv_c17")
     kind = case.get("kind")
-    if kind == "keys":
-        print("replay: key probes are regenerated from the seed; run the check with VERIF_SEED=%s" % rp.get("seed"))
-        return 1
-    ok = RUNNERS[kind](ctx, drv, case)
+    ok = replay_keys(ctx, drv, case) if kind == "keys" else RUNNERS[kind](ctx, drv, case)
     print("replay: %s" % ("property holds and model agrees on this case" if ok and not ctx.known_hits else
                           ("only known findings reproduced" if ok else "REPRODUCED")))
     for fid, (f, n) in ctx.known_hits.items():
